@@ -72,6 +72,10 @@ func runC13(c *Checker) {
 	// a keepalive that is never evaluated detects nothing: the send and receive goroutines must
 	// not be able to deadlock each other (C18 LOCKORD/RACE/CLOSE, imported)
 	importLayers(c, "C18")
+	// "a connection whose peer answers is never closed by keepalive, however long it stays idle":
+	// the receive loop keeps consuming (and ACKing) the peer's pings only if it never has to hand
+	// them to an application that may not be in Recv
+	rulePingNotDelivered(c, "KA-3")
 }
 
 // ruleKA: the keepalive wiring (shared by C13 and C06).
